@@ -359,7 +359,10 @@ func (cr *checkRun) handleFailure(full string, rep *FuncReport, o *Oblig) {
 			}
 		}
 	}
-	refutedClause := isClauseKind(o.Kind) && o.Res.Status == "sat" // a contract clause the solver refutes is a violation, registered or not
+	// in a unit under FULL contract every obligation is part of the claim: one the solver REFUTES (a model exists under
+	// the unit's own preconditions and its callees' contracts) is a violation whether or not its name is registered -
+	// typically an index or slice expression of an edited statement; one the solver merely fails to decide is undecided
+	refutedClause := o.Res.Status == "sat"
 	if !cr.registry["$none"] && !claimed && !refutedClause {
 		// an obligation produced by changed code that is not part of the claimed set: a violation only if it replays
 		rp := replayObligation(cr, full, o)
